@@ -42,9 +42,12 @@ Candidate defect of the unchanged tree found by this check (kept strict; reporte
 from __future__ import annotations
 
 META = {
-    "level": "exploration",
-    "engine": "sweep",
-    "technique": "run-time contract sweep (bounded stand-in for deduction): every projection matrix of the AD grid operators compared with an "
+    "level": "other",
+    "engine": "pse",
+    "technique": "contract-based deductive verification of the subdomain projections: the real _cell_projections / _face_projections and "
+                 "SubdomainProjections methods run on stub grids with symbolic cell / face counts (<= 3 grids, all ordered sub-lists, dim 1-3); "
+                 "entrywise placement, transposition, injectivity and identity postconditions discharged by z3 (linear integer arithmetic); "
+                 "run-time contract sweep (bounded stand-in) for all projection classes: every projection matrix of the AD grid operators compared with an "
                  "independently assembled 0/1 (or per-interface block) matrix for all orderings and subsets of the grid lists of four small "
                  "real md-grids, quantity dimension 1-3",
     "text": "Bounded (tier B): four small md-grids (2-D X-intersection with 0-d point; 2-D single fracture with a refined, non-matching 1-d grid; "
@@ -379,6 +382,116 @@ def interface_lists(intfs, tier, rng):
     return out
 
 
+# ----------------------------------------------------------------------------- tier Ps: subdomain projections, symbolic grid sizes
+
+
+def case_subdomain_projections(pp, kind, dim, nsd):
+    """The real _cell_projections / _face_projections and the real SubdomainProjections.{cell,face}_{prolongation,restriction} on `nsd`
+    stub grids whose cell / face counts are symbolic (>= 1), quantity dimension `dim` concrete.  expand_indices_nd is a modular stub
+    (contract: out[q] = ind[q // dim] * dim + q % dim, checked exhaustively in small scope by C35); pp.ad.SparseArray is replaced by a
+    transparent holder (its constructor only wraps the matrix)."""
+    import itertools as it
+
+    import z3
+
+    from engine.arrays import SymArray, SymMat
+    from engine.sym import SymBool, iterm
+
+    def run(ctx):
+        class G:
+            dim = 2
+
+            def __init__(self, q):
+                self.q = q
+                self.num_cells = ctx.int(f"nc{q}")
+                self.num_faces = ctx.int(f"nf{q}")
+                ctx.assume(self.num_cells >= 1)
+                ctx.assume(self.num_faces >= 1)
+
+        grids = [G(q) for q in range(nsd)]
+        size = lambda g: (g.num_cells if kind == "cell" else g.num_faces)
+        dm = z3.IntVal(dim)
+
+        def expand(ind, d, order="F"):
+            assert d == dim and order == "F"
+            f = ind._elem
+            return SymArray(ind.n * dim, lambda q: f(q / dm) * dm + q % dm, "int")
+
+        class Holder:
+            def __init__(self, mat, name=None):
+                self._mat = mat
+
+        old_exp, old_sa = pp.array_operations.expand_indices_nd, pp.ad.SparseArray
+        pp.array_operations.expand_indices_nd, pp.ad.SparseArray = expand, Holder
+        try:
+            proj = pp.ad.SubdomainProjections(grids, dim=dim)
+            tot = sum(iterm(size(g)) for g in grids) * dm
+            offs = []
+            acc = z3.IntVal(0)
+            for g in grids:
+                offs.append(acc)
+                acc = acc + iterm(size(g)) * dm
+            r, c, c2 = ctx.int("r"), ctx.int("c"), ctx.int("c2")
+            ctx.assume((r >= 0) & (c >= 0) & (c2 >= 0))
+            first = True
+            for m in range(1, nsd + 1):
+                for sel in it.permutations(range(nsd), m):
+                    L = [grids[q] for q in sel]
+                    P = getattr(proj, f"{kind}_prolongation")(L)._mat
+                    R = getattr(proj, f"{kind}_restriction")(L)._mat
+                    tag = f"list {list(sel)}: "
+                    ncols = sum(iterm(size(g)) for g in L) * dm
+                    ctx.prove(tag + "prolongation has shape (dim * total, dim * size of the listed grids), restriction the transposed shape",
+                              SymBool(z3.And(iterm(P.shape[0]) == tot, iterm(P.shape[1]) == ncols, iterm(R.shape[0]) == ncols, iterm(R.shape[1]) == tot)))
+                    # expected: column c in the block of the m-th listed grid has its single 1 in row  offset(grid) + (c - column offset)
+                    rho = z3.IntVal(-1)
+                    coff = z3.IntVal(0)
+                    rho2 = z3.IntVal(-1)
+                    for g in L:
+                        nxt = coff + iterm(size(g)) * dm
+                        rho = z3.If(z3.And(c.t >= coff, c.t < nxt), offs[g.q] + (c.t - coff), rho)
+                        rho2 = z3.If(z3.And(c2.t >= coff, c2.t < nxt), offs[g.q] + (c2.t - coff), rho2)
+                        coff = nxt
+                    inr = z3.And(r.t < tot, c.t < ncols)
+                    ctx.prove(tag + "prolongation entry (r, c) is 1 iff r = global offset of c's grid + local index of c, else 0 (blocks in list order)",
+                              SymBool(z3.Implies(inr, P._entry(r.t, c.t) == z3.If(r.t == rho, z3.RealVal(1), z3.RealVal(0)))))
+                    ctx.prove(tag + "restriction is the transpose of the prolongation", SymBool(z3.Implies(inr, R._entry(c.t, r.t) == P._entry(r.t, c.t))))
+                    ctx.prove(tag + "distinct columns hit distinct rows, inside the global range (hence restriction o prolongation = identity)",
+                              SymBool(z3.Implies(z3.And(c.t < ncols, c2.t < ncols, c.t != c2.t), z3.And(rho != rho2, rho >= 0, rho < tot))))
+                    if list(sel) == list(range(nsd)):
+                        ctx.prove(tag + "all grids in construction order: the prolongation is the identity", SymBool(z3.Implies(inr, (rho == c.t))))
+                    if first and nsd >= 2 and m == 1 and sel[0] == 1:
+                        ctx.prove("CANARY: the block of the second grid starts at row 0", SymBool(z3.Implies(z3.And(inr, c.t == 0), P._entry(z3.IntVal(0), c.t) == 1)),
+                                  expect_refuted=True)
+                        first = False
+        finally:
+            pp.array_operations.expand_indices_nd, pp.ad.SparseArray = old_exp, old_sa
+        return "ok"
+
+    return run
+
+
+def prove(rep, pp):
+    from engine import indexmodels, shims
+    from engine.harness import run_case
+    from porepy.numerics.ad import grid_operators as go
+
+    rep.under_contract("porepy.numerics.ad.grid_operators._cell_projections [tier Ps]", "porepy.numerics.ad.grid_operators._face_projections [tier Ps]",
+                       "pp.ad.SubdomainProjections.{cell,face}_{prolongation,restriction} [tier Ps]")
+    rep.assume("tier Ps: number of grids <= 3 (all ordered sub-lists), quantity dimension 1..3, cell / face counts symbolic (>= 1); "
+               "modular stub expand_indices_nd(ind, dim)[q] = ind[q // dim] * dim + q % dim (C35); pp.ad.SparseArray as transparent holder")
+    refuted = []
+    with shims.shadow_builtins([go]), shims.numpy_shims(), indexmodels.index_shims():
+        for kind in ("cell", "face"):
+            for dim in (1, 2, 3):
+                for nsd in ((1, 2, 3) if dim == 1 else (2, 3) if rep.tier != "quick" else (2,)):
+                    rf, _ = run_case(rep, f"SubdomainProjections[{kind}, dim={dim}, {nsd} grids]", case_subdomain_projections(pp, kind, dim, nsd), tier="Ps")
+                    refuted += rf
+    rep.trust(*sorted(shims.USED_MODELS))
+    for name, ctx, r in refuted:
+        rep.violation(name, name.split(":")[0], inputs=None, detail=f"z3 counter-model: {r['model']}"[:1500], confirmed=False, solver_output=str(r["model"]))
+
+
 def run(rep):
     import warnings
 
@@ -387,6 +500,7 @@ def run(rep):
 
     warnings.simplefilter("ignore")
     quick = rep.tier == "quick"
+    prove(rep, pp)
     rep.under_contract("pp.ad.SubdomainProjections.cell_restriction", "pp.ad.SubdomainProjections.cell_prolongation", "pp.ad.SubdomainProjections.face_restriction",
                        "pp.ad.SubdomainProjections.face_prolongation", "pp.ad.MortarProjections (8 projections)", "pp.ad.BoundaryProjection",
                        "porepy.numerics.ad.grid_operators._cell_projections", "porepy.numerics.ad.grid_operators._face_projections", "pp.BoundaryGrid.projection")
